@@ -579,14 +579,21 @@ pub static POLLS: AtomicU64 = AtomicU64::new(0);
 pub fn poll_bound(n_items: usize, trees: usize, batches: usize) -> u64 {
     let n = n_items as u64;
     let lg = 64 - (n + 2).leading_zeros() as u64;
-    5_000 + 400 * (n + 1) * (trees as u64 + 1) * lg * (batches as u64 + 1)
+    5_000 + 40 * (n + 1) * (trees as u64 + 1) * lg * (batches as u64 + 1)
+}
+
+/// Logical bound on the iterations of the two unbounded build loops (hook `verif::tick`):
+/// every iteration of a correct build retires at least one over-full bucket or one batch of
+/// pending items, and there are at most O(items x trees) of those.
+pub fn loop_bound(n_items: usize, trees: usize) -> u64 {
+    256 + 16 * (n_items as u64 + 1) * (trees as u64 + 1)
 }
 
 pub enum BuildOutcome {
-    Ok { polls: u64 },
+    Ok { polls: u64, ticks: [u64; 2] },
     Err { err: String, cancelled: bool },
     Panic(String),
-    NonTerminating { polls: u64 },
+    NonTerminating { polls: u64, ticks: [u64; 2] },
 }
 
 pub fn run_build<D: Distance>(
@@ -596,7 +603,13 @@ pub fn run_build<D: Distance>(
     opts: &BuildOpts,
     tmpdir: Option<&std::path::Path>,
     limit: u64,
+    loop_limit: u64,
 ) -> BuildOutcome {
+    #[cfg(arroy_verif)]
+    {
+        arroy::verif::reset_ticks();
+        arroy::verif::LOOP_LIMIT.store(loop_limit, Ordering::Relaxed);
+    }
     let mut writer = Writer::<D>::new(adb::<D>(db), m.index, m.dims);
     if let Some(t) = tmpdir {
         writer.set_tmpdir(t);
@@ -631,18 +644,26 @@ pub fn run_build<D: Distance>(
     });
     let polls = polls.load(Ordering::Relaxed);
     POLLS.fetch_add(polls, Ordering::Relaxed);
+    #[allow(unused_mut)]
+    let mut ticks = [0u64; 2];
+    #[cfg(arroy_verif)]
+    {
+        ticks = [arroy::verif::LOOP_TICKS[0].load(Ordering::Relaxed), arroy::verif::LOOP_TICKS[1].load(Ordering::Relaxed)];
+        arroy::verif::LOOP_LIMIT.store(0, Ordering::Relaxed);
+    }
+    let loops_tripped = loop_limit != 0 && (ticks[0] > loop_limit || ticks[1] > loop_limit);
     match r {
         Err(p) => BuildOutcome::Panic(p),
         Ok(Ok(())) => {
-            if tripped.load(Ordering::Relaxed) {
-                BuildOutcome::NonTerminating { polls }
+            if tripped.load(Ordering::Relaxed) || loops_tripped {
+                BuildOutcome::NonTerminating { polls, ticks }
             } else {
-                BuildOutcome::Ok { polls }
+                BuildOutcome::Ok { polls, ticks }
             }
         }
         Ok(Err(e)) => {
-            if tripped.load(Ordering::Relaxed) {
-                BuildOutcome::NonTerminating { polls }
+            if tripped.load(Ordering::Relaxed) || loops_tripped {
+                BuildOutcome::NonTerminating { polls, ticks }
             } else {
                 let cancelled = matches!(e, arroy::Error::BuildCancelled);
                 BuildOutcome::Err { err: format!("{e:?}"), cancelled }
@@ -1191,6 +1212,20 @@ impl Engine<'_> {
                 return Some(vio(step, "store:in-txn", format!("after {desc} (in the write txn): {e}")));
             }
         }
+        if ck.staleness || ck.rejected || ck.store || ck.isolation {
+            // distinct (operation kind, effect class, index state) situations observed
+            let m = &model.ix[op_ix];
+            let sig = crate::util::hash_str(&format!(
+                "{}|{}|{}|{}|{}|{}",
+                op.kind(),
+                unchanged_expected,
+                m.has_metadata,
+                m.dirty,
+                m.metric.short(),
+                (m.items.len() as f64).log2().ceil()
+            ));
+            self.sigs.push(sig);
+        }
         if ck.staleness {
             for m in &model.ix {
                 if let Err(e) = check_staleness(wtxn, db, m, rng, &mut self.c) {
@@ -1236,18 +1271,30 @@ impl Engine<'_> {
         let trees_bound = opts.n_trees.unwrap_or(n.min(dims.max(1))).max(prev_roots) + 1;
         let batches = if opts.memory.is_some() { n / 200 + 2 } else { 0 };
         let limit = poll_bound(n, trees_bound, batches);
-        let out = with_metric!(metric, D, run_build::<D>(wtxn, db, &model.ix[op_ix], opts, tmpdir, limit));
+        let loop_limit = loop_bound(n, trees_bound);
+        let out = with_metric!(metric, D, run_build::<D>(wtxn, db, &model.ix[op_ix], opts, tmpdir, limit, loop_limit));
         let owned = ck.build_must_succeed;
         match out {
-            BuildOutcome::Ok { polls } => {
+            BuildOutcome::Ok { polls, ticks } => {
                 self.c.inc("builds_ok");
                 self.c.max("max_polls", polls);
                 self.c.max("max_polls_permille_of_bound", polls * 1000 / limit);
+                self.c.max("max_loop_ticks", ticks[0].max(ticks[1]));
+                self.c.max("max_loop_ticks_permille_of_bound", ticks[0].max(ticks[1]) * 1000 / loop_limit);
                 if opts.threads > 1 {
                     self.c.inc("builds_multithread");
                 }
-                if opts.memory.is_some() {
+                if let Some(mem) = opts.memory {
                     self.c.inc("builds_with_memory_hint");
+                    let cap = opts.capacity(dims);
+                    let item_bytes = 1 + metric.header_size() + metric.vector_bytes(dims);
+                    if n > 200 {
+                        self.c.inc("c14_items_above_min_batch");
+                    }
+                    // the region of the endless-loop defect: the 200-item minimum batch fits one bucket
+                    if cap >= 200 && n > cap && mem / 4096 * (4096 / item_bytes.min(4096)).max(1) <= cap {
+                        self.c.inc("c14_batch_fits_one_bucket");
+                    }
                 }
             }
             BuildOutcome::Err { err, .. } => {
@@ -1256,12 +1303,12 @@ impl Engine<'_> {
             BuildOutcome::Panic(pm) => {
                 return Some(self.own(owned, step, "build:panic", format!("{desc} over {n} items panicked: {pm}")));
             }
-            BuildOutcome::NonTerminating { polls } => {
+            BuildOutcome::NonTerminating { polls, ticks } => {
                 return Some(self.own(
                     ck.termination,
                     step,
                     "build:nonterminating",
-                    format!("{desc} over {n} items polled the cancellation callback {polls} times (logical bound {limit}): declared non-terminating"),
+                    format!("{desc} over {n} items ({} {dims}d) exceeded its logical clock: {polls} cancellation polls (bound {limit}), build-loop iterations {ticks:?} (bound {loop_limit}): declared non-terminating", metric.short()),
                 ));
             }
         }
@@ -1295,9 +1342,8 @@ impl Engine<'_> {
             self.c.add("isolation_foreign_entries", a.len() as u64);
         }
         // structural monitors on the raw dump
-        let need_dump = ck.forest || ck.routing || ck.options || ck.decode;
         let mut decoded: Option<RawIndex> = None;
-        if need_dump {
+        {
             let d = rawdb::dump(wtxn, db).unwrap();
             let own = rawdb::dump_of_index(&d, index);
             let dec = match rawdb::decode(&own, &model.decl()) {
@@ -1308,7 +1354,7 @@ impl Engine<'_> {
             };
             self.c.inc("dumps_decoded");
             self.c.add("entries_decoded", own.len() as u64);
-            if ck.forest || ck.options || ck.routing {
+            {
                 match forest::check_forest(&dec, dims, metric.disk_name()) {
                     Ok(st) => {
                         self.c.inc("forests_checked");
